@@ -493,7 +493,11 @@ void a_complex_asin_(a_complex *ctx)
         a_real const y2 = y * y;
         a_real const real = ctx->real;
         a_real const imag = ctx->imag;
-        if (b <= b_crossover)
+        if (x > 1 / A_REAL_EPSILON || y > 1 / A_REAL_EPSILON)
+        {
+            ctx->real = a_real_atan2(x, y); /* z*z-1 rounds to z*z and r+s may overflow: asin(z)=-i*log(2iz) */
+        }
+        else if (b <= b_crossover)
         {
             ctx->real = a_real_asin(b);
         }
@@ -508,7 +512,11 @@ void a_complex_asin_(a_complex *ctx)
             a_real const den = A_REAL_C(0.5) * (apx / (r + x + 1) + apx / (s + x - 1));
             ctx->real = a_real_atan(x / (a_real_sqrt(den) * y));
         }
-        if (a <= a_crossover)
+        if (x > 1 / A_REAL_EPSILON || y > 1 / A_REAL_EPSILON)
+        {
+            ctx->imag = a_real_log(a_real_hypot(x / 2, y / 2)) + 2 * A_REAL_LN2; /* log(2|z|), |z| itself may overflow */
+        }
+        else if (a <= a_crossover)
         {
             a_real am1;
             if (x < 1)
@@ -586,7 +594,11 @@ void a_complex_acos_(a_complex *ctx)
         a_real const y2 = y * y;
         a_real const real = ctx->real;
         a_real const imag = ctx->imag;
-        if (b <= b_crossover)
+        if (x > 1 / A_REAL_EPSILON || y > 1 / A_REAL_EPSILON)
+        {
+            ctx->real = a_real_atan2(y, x); /* z*z-1 rounds to z*z and r+s may overflow: acos(z)=-i*log(2z) */
+        }
+        else if (b <= b_crossover)
         {
             ctx->real = a_real_acos(b);
         }
@@ -601,7 +613,11 @@ void a_complex_acos_(a_complex *ctx)
             a_real const den = A_REAL_C(0.5) * (apx / (r + x + 1) + apx / (s + x - 1));
             ctx->real = a_real_atan(a_real_sqrt(den) * y / x);
         }
-        if (a <= a_crossover)
+        if (x > 1 / A_REAL_EPSILON || y > 1 / A_REAL_EPSILON)
+        {
+            ctx->imag = a_real_log(a_real_hypot(x / 2, y / 2)) + 2 * A_REAL_LN2; /* log(2|z|), |z| itself may overflow */
+        }
+        else if (a <= a_crossover)
         {
             a_real am1;
             if (x < 1)
@@ -666,7 +682,14 @@ void a_complex_atan_(a_complex *ctx)
 #elif defined(A_HAVE_CATAN)
     *ctx = A_REAL_F(catan)(*ctx);
 #else /* !A_HAVE_CATAN */
-    if (ctx->imag != 0)
+    if (a_real_abs(ctx->real) > 1 / A_REAL_EPSILON || a_real_abs(ctx->imag) > 1 / A_REAL_EPSILON)
+    {
+        a_real const pi_2 = ctx->real < 0 ? -A_REAL_PI_2 : +A_REAL_PI_2;
+        a_complex_inv_(ctx); /* 2*z and r*r may overflow: atan(z)=+-pi/2-1/z */
+        ctx->real = pi_2 - ctx->real;
+        ctx->imag = -ctx->imag;
+    }
+    else if (ctx->imag != 0)
     {
         a_real const r = a_real_hypot(ctx->real, ctx->imag);
         a_real const u = 2 * ctx->imag / (r * r + 1);
